@@ -10,7 +10,7 @@ Definition NS_PER_MS := 1000000.
 
 (* ToMsec (wait.cpp): Duration (ms, 64 bit) -> int for poll *)
 Definition to_msec (t : Z) : Z :=
-  if t >? INT_MAX then INT_MAX else if t <? 0 then -1 else t.
+  if INT_MAX <? t then INT_MAX else if t <? 0 then -1 else t.
 
 (* DeadlineLimited (wait.h:103-127): now and deadline are steady-clock time points (ns) *)
 Record dl := { d_now : Z; d_deadline : Z }.
